@@ -72,7 +72,7 @@ Proof.
     all: unfold_prims; opt_ops.
     all: use_eqs.
     all: finish_opt H1 H2 L12 Lo.
-  - destruct bi as [bv bc]. destruct (Hbi eq_refl) as [Hv Hc]. cbn in Hv, Hc. subst bv bc.
+  - destruct bi as [bv bc bf bn]. destruct (Hbi eq_refl) as (Hv & Hc & Hf). cbn in Hv, Hc, Hf. subst bv bc bf.
     split_ids.
     all: repeat split_if.
     all: unfold_prims; opt_ops.
@@ -200,7 +200,7 @@ Proof.
     eexists. split; [reflexivity|]. cbn [do_fill]. split.
     + rewrite upd_same. opt_ops. rewrite nf_of0. reflexivity.
     + intros j Hj. rewrite upd_other by assumption. reflexivity.
-  - destruct bi as [bv bc]. destruct (Hbi eq_refl) as [Hv Hc]. cbn in Hv, Hc. subst bv bc.
+  - destruct bi as [bv bc bf bn]. destruct (Hbi eq_refl) as (Hv & Hc & Hf). cbn in Hv, Hc, Hf. subst bv bc bf.
     cbn [lincomb_fuel]. unfold alias_tree.
     cbn [exec_list exec bind cval opnd sval e_a e_b e_x1 e_x2 e_out]. opt_ops.
     rewrite Nat.eqb_refl, E0, E1. cbn [andb negb bind].
